@@ -14,6 +14,7 @@ THEOREMS: dict[str, list[str]] = {
         "Rbacx.C15.c15_get_latest",
         "Rbacx.C15.c15_no_deadline",
         "Rbacx.C15.c15_evict_only_lru",
+        "Rbacx.C15.c15_victims_are_popped",
         "Rbacx.C15.c15_lru_exact_no_ttl",
         "Rbacx.C15.c15_trace_ok",
         "Rbacx.C15.c15_atomic_ops",
